@@ -40,7 +40,11 @@ func (n *MixedValueNode) AddConstraint(c constraint.Constraint) {
 	switch t := c.(type) {
 	case *constraint.TypeConstraint:
 		n.addTypeConstraint(t)
-		n.types = []string{t.Bytes().String()}
+		// `type: "mixed"` on a choice (@a | @b) says what the choice is already:
+		// the alternatives stay the types of the node.
+		if len(n.types) == 0 || t.Bytes().Unquote().String() != "mixed" {
+			n.types = []string{t.Bytes().String()}
+		}
 
 	case *constraint.Or:
 		n.addOrConstraint(t)
